@@ -48,8 +48,8 @@ DaysInMonth(y, m) == IF m = 2 THEN (IF IsLeap(y) THEN 29 ELSE 28) ELSE IF m \in 
 
 -----------------------------------------------------------------------------
 (* text pieces (character codes) *)
-Dig2(n) == <<48 + (n \div 10) % 10, 48 + n % 10>>
-Dig4(n) == <<48 + (n \div 1000) % 10, 48 + (n \div 100) % 10, 48 + (n \div 10) % 10, 48 + n % 10>>
+Dig2(n) == <<48 + ((n \div 10) % 10), 48 + (n % 10)>>
+Dig4(n) == <<48 + ((n \div 1000) % 10), 48 + ((n \div 100) % 10), 48 + ((n \div 10) % 10), 48 + (n % 10)>>
 DayNames == << <<83, 117, 110>>, <<77, 111, 110>>, <<84, 117, 101>>, <<87, 101, 100>>, <<84, 104, 117>>, <<70, 114, 105>>, <<83, 97, 116>> >>
 MonNames == << <<74, 97, 110>>, <<70, 101, 98>>, <<77, 97, 114>>, <<65, 112, 114>>, <<77, 97, 121>>, <<74, 117, 110>>,
                <<74, 117, 108>>, <<65, 117, 103>>, <<83, 101, 112>>, <<79, 99, 116>>, <<78, 111, 118>>, <<68, 101, 99>> >>
